@@ -1,6 +1,7 @@
 SPECIFICATION Spec
 CONSTANTS Thresholds = {8, 10, 16, 20, 25, 32, 40, 50, 64, 100, 128, 200, 250, 255, 256, 500, 512, 1000, 1024}
- Offsets = {-8, -7, -6, -5, -4, -3, -2, -1, 0, 1, 2}
+ Offsets = {0, 1, 2, 3, 4, 5, 6, 7, 8, 9, 10}
+ Shift = 8
  Unused = {0, 2, 3, 8, 20}
  Kinds = {"unbound", "mismatch", "dupdecl", "warning"}
 INVARIANTS SizeOk EmitInv
